@@ -287,6 +287,9 @@ def gen_rat_func(quick: bool) -> List[Method]:
     pairs = [("u8", "A_FLOAT32"), ("u8", "A_INT32"), ("i8", "A_INT32"), ("i8", "A_FLOAT32"), ("f32", "A_FLOAT32"), ("f32", "A_INT32")]
     if not quick:
         pairs += [("u8", "A_UINT32"), ("u16", "A_FLOAT64"), ("f64", "A_FLOAT64")]
+    if quick:
+        nums = nums[:4] + nums[5:6]
+        dens = dens[:2] + dens[3:]
     for it, pt in pairs:
         lm = limit_menu(it if it in LIMVALS else "f32")
         for num in nums:
@@ -322,7 +325,7 @@ def gen_scale_rat_func(quick: bool) -> List[Method]:
         for n in (1, 2, 3):
             combos = list(itertools.product(range(len(segs)), repeat=n))
             if quick and n == 3:
-                combos = combos[::5]
+                combos = combos[::9]
             for combo in combos:
                 for style in ("co", "cc"):
                     scales = []
